@@ -41,6 +41,19 @@ def mark_old(ctx, v, depth=0):
             if not v.elem.nullable:
                 ctx.assume(z3.ForAll([k], z3.Implies(rng, it.z != 0)))
             ctx.assume(z3.ForAll([k], z3.Implies(z3.And(rng, it.z != 0), REF_TYPE(it.z) == v.elem.tag())))
+    elif v.kind == "ref" and depth < 6:
+        # a concrete-spine argument (object / list / dict built by the task): what it holds exists before the call as well
+        cell = ctx.cheap.get(v.addr)
+        vals = []
+        if isinstance(cell, dict):
+            vals = list(cell.values())
+        elif isinstance(cell, list):
+            vals = cell
+        elif isinstance(cell, tuple):
+            vals = list(cell[0]) + list(cell[1])
+        for x in vals:
+            if isinstance(x, Val):
+                mark_old(ctx, x, depth + 1)
     elif v.kind == "tuple":
         for x in v.items:
             mark_old(ctx, x, depth + 1)
